@@ -225,7 +225,7 @@ def run(tier, workers=None):
     e1 = {"states": 0, "transitions": 0, "replays": 0}
     per_cfg = []
     for cfg in hist_cfgs:
-        res = explore.explore(lambda cfg=cfg: DavSys(cfg), max_depth=2 if tier == "quick" else 4, workers=workers, max_states=3000)
+        res = explore.explore(lambda cfg=cfg: DavSys(cfg), max_depth=2 if tier == "quick" else 4, workers=workers, max_states=3000, budget_s=None if tier == "quick" else 150)
         for e in res.errors:
             rep.harness_error(e[:1500])
         for sig, e in res.violations.items():
